@@ -238,6 +238,9 @@ impl BuildSystem {
             _ => return Err("Invalid validation library. Use 'zod' or 'none'".into()),
         };
 
+        // From here on the output directory is being rewritten: drop the old cache record first
+        GenerationCache::invalidate(&config.output_path);
+
         let mut generator = create_generator(validation);
         let generated_files = generator.generate_models(
             &commands,
@@ -248,13 +251,17 @@ impl BuildSystem {
         )?;
 
         // Generate dependency visualization if requested
+        let mut written_files = generated_files.clone();
         if config.should_visualize_deps() {
             self.generate_dependency_visualization(&analyzer, &commands, &config.output_path)?;
+            written_files.push("dependency-graph.txt".to_string());
+            written_files.push("dependency-graph.dot".to_string());
         }
 
         // Save cache after successful generation
         let cache = GenerationCache::new(&commands, discovered_structs, config)?
-            .with_events(analyzer.get_discovered_events())?;
+            .with_events(analyzer.get_discovered_events())?
+            .with_files(&written_files);
         if let Err(e) = cache.save(&config.output_path) {
             self.logger
                 .warning(&format!("Failed to save generation cache: {}", e));
